@@ -8,6 +8,7 @@ import (
 	"strings"
 
 	"github.com/nspcc-dev/neo-go/pkg/core/fee"
+	"github.com/nspcc-dev/neo-go/pkg/util"
 	"github.com/nspcc-dev/neo-go/pkg/vm"
 	"github.com/nspcc-dev/neo-go/pkg/vm/opcode"
 	"github.com/nspcc-dev/neo-go/pkg/vm/stackitem"
@@ -104,6 +105,14 @@ const priceBase = vm.ExecFeeFactorMultiplier // 1 coefficient unit = 1 Datoshi =
 
 func priceGetter(op opcode.Opcode, _ []byte) int64 { return fee.Opcode(priceBase, op) }
 
+// instruction coverage of the real VM: how often each opcode was executed to completion and how
+// often it was the instruction at which the VM faulted.
+var (
+	execOK    [256]int
+	execFault [256]int
+	trace     = false
+)
+
 // execReal runs the case on a fresh real VM.
 func execReal(c *vcase) (res vres) {
 	defer func() {
@@ -116,11 +125,27 @@ func execReal(c *vcase) (res vres) {
 		v.SetPriceGetter(priceGetter)
 	}
 	v.SetGasLimit(c.gas) // multiplies a positive limit by ExecFeeFactorMultiplier; -1 = unlimited
+	last := -1
+	if trace {
+		v.SetOnExecHook(func(_ util.Uint160, _ int, op opcode.Opcode) {
+			if last >= 0 {
+				execOK[last]++
+			}
+			last = int(op)
+		})
+	}
 	v.LoadScript(c.script)
 	for _, a := range c.args {
 		v.Estack().PushItem(a.item())
 	}
 	_ = v.Run()
+	if trace && last >= 0 {
+		if v.State().HasFlag(vmstate.Fault) {
+			execFault[last]++
+		} else {
+			execOK[last]++
+		}
+	}
 	res.gas = v.GasConsumed()
 	res.refs = v.VerifRefs()
 	switch {
